@@ -73,8 +73,13 @@ def gen_case(rng, kind):
         (eps, _th) = [(0.25, 3), (0.2, 2.5), (0.15, 2), (0.1, 1.78), (0.05, 1.58)][int(np.searchsorted(EDGES, f0x, side="right"))]
         fn_std = float(rng.choice([eps * f0x, np.nextafter(eps * f0x, 0), np.nextafter(eps * f0x, 10), 0.0]))   # 0.0: all windows peak on one sample
         rng_ = (None, None)
-    return dict(kind=kind, lw=lw, nw=nw, freq=freq.tolist(), mc=mc.tolist(), sd=sd.tolist(), fn_std=fn_std,
-                range=list(rng_))
+    order = "ascending"
+    if tuple(rng_) == (None, None) and rng.random() < 0.2:
+        # a curve tabulated by ascending period: the criteria are stated on frequency values, not on array positions
+        freq, mc, sd = freq[::-1].copy(), np.asarray(mc)[::-1].copy(), np.asarray(sd)[::-1].copy()
+        order = "descending"
+    return dict(kind=kind, lw=lw, nw=nw, freq=np.asarray(freq).tolist(), mc=np.asarray(mc).tolist(), sd=np.asarray(sd).tolist(), fn_std=fn_std,
+                range=list(rng_), order=order)
 
 
 def impl(case, verbose=0):
@@ -218,7 +223,7 @@ def run(ctx):
                  nontrivial=(vec != prev or c["kind"] == "edge"),
                  sample=dict(kind=c["kind"], n=len(c["freq"]), lw=c["lw"], nw=c["nw"], range=c["range"], impl=im, model=mo))
         prev = vec
-        ctx.count("kind:" + c["kind"])
+        ctx.count("kind:" + c["kind"]); ctx.count("order:" + c.get("order", "ascending"))
         ctx.count("range:" + "".join("N" if x is None else "v" for x in c["range"]))
         ctx.count("verdict:" + "".join("E" if im[k] == "err" else "".join("1" if b else "0" for b in im[k]) for k in ("rel", "cla")))
         ctx.traces += 1
